@@ -563,7 +563,11 @@ func (u *Unit) adjustRecv(rv Value, want types.Type, env *Env, at ast.Node) Valu
 	case wantPtr == havePtr:
 		return Value{rv.Term, want}
 	case wantPtr && !havePtr:
-		unsup("implicit address-of receiver at %s", u.pos(at.Pos()))
+		// implicit &x on an addressable receiver: a cell holding the current value
+		r := u.alloc(env, "recvaddr")
+		u.ptrStore(env, r, rv.Ty, rv.Term)
+		u.note("implicit address-of receiver " + u.exprText(at) + " modelled as a fresh cell holding the current value")
+		return Value{r, want}
 	case !wantPtr && havePtr:
 		pt := types.Unalias(rv.Ty).(*types.Pointer)
 		u.safety(env, "nil", at.Pos(), u.exprText(at), Not(Same(rv.Term, Term{"nil_Ref", SRef})))
@@ -796,7 +800,16 @@ func (u *Unit) callByContract(c *ast.CallExpr, fi *FuncInfo, blk *Block, recv *V
 	// effects
 	if !blk.Pure {
 		mods := u.evalModifies(blk, env, sc)
-		u.havocForCall(env, pre, mods)
+		if !mods.all && len(mods.refs) == 0 {
+			// the callee writes nothing that exists: it can only allocate. Its postcondition then constrains the current
+			// heaps at references allocated during the call (unconstrained so far); no heap needs to be replaced.
+			clk0 := env.clock
+			nc := u.D.Fresh("clk", SInt)
+			env.assume(le(clk0, nc))
+			env.clock = nc
+		} else {
+			u.havocForCall(env, pre, mods)
+		}
 	}
 	// results
 	callTys := u.callResultTypes(u.Info, c)
